@@ -159,9 +159,9 @@ Print Assumptions C15_int_of_ascii.
    accepts at ANY minor version decodes to a request satisfying req_wf - the well-formedness that the theorems of
    C01 C04 C08 C09 C10 C11 C12 C15 assume of parsed requests is hereby derived from the code's schemas, and weakening
    a schema (a bound, a required member, minProperties, a pattern ...) breaks this theorem.
-   Hypotheses, all visible: json_wf = object keys pairwise distinct (json.loads); json_finite = no nan/inf number
-   (schema-valid for allocation_ratio - C15_nonfinite_ratio_schema_valid below - and rejected by the handler since
-   fix df933f2); the *_inj hypotheses say that the tokenizers are injective on the identifiers that occur in the
+   Hypotheses, all visible: json_wf = object keys pairwise distinct (json.loads); json_finite = no nan/inf number and every
+   allocation_ratio within +-SQL_SP_FLOAT_MAX (the schema-valid exceptions - C15_nonfinite_ratio_schema_valid,
+   C15_huge_negative_ratio_schema_valid below - are rejected by the handler since fixes df933f2, 1d23be2, 7fca050); the *_inj hypotheses say that the tokenizers are injective on the identifiers that occur in the
    document (they exclude two spellings of one uuid in one document). *)
 Theorem C15_valid_body_wf :
   forall tok_rp tok_cons tok_agg tok_rc tok_trait tok_name tok_proj tok_user tok_type : Parse.str -> Z,
@@ -213,3 +213,13 @@ Theorem C15_nonfinite_ratio_schema_valid : forall tok_rc : Parse.str -> Z,
   exists j : json, json_wf j /\ validate S_inventory__POST_INVENTORY_SCHEMA j = true /\ dec_inv_post tok_rc j = None.
 Proof. exact C15s_inv_post_nan_refuted. Qed.
 Print Assumptions C15_nonfinite_ratio_schema_valid.
+
+(* found by the boundary stream: so is a FINITE allocation_ratio below the negative of the schema's maximum (the schema
+   has no minimum), e.g. -1e308; (total - reserved) * ratio overflowed in Inventory.capacity - a 500 until fix 7fca050.
+   json_finite (Decode.json_finiteb) therefore also says: every allocation_ratio member is within
+   +-SQL_SP_FLOAT_MAX (Decode.ratio_storable), which is the handler's test. *)
+Theorem C15_huge_negative_ratio_schema_valid : forall tok_rc : Parse.str -> Z,
+  exists j : json, json_wf j /\ json_nospecb j = true /\ validate S_inventory__POST_INVENTORY_SCHEMA j = true /\
+                   dec_inv_post tok_rc j = None.
+Proof. exact C15s_inv_post_huge_negative_refuted. Qed.
+Print Assumptions C15_huge_negative_ratio_schema_valid.
